@@ -8,6 +8,7 @@ All theorems quantify over every pipeline `p : Pipe` (an inductive type: nesting
 import MlVerif.Gen.C16
 import MlVerif.Model.Pipeline
 import MlVerif.Lemmas.Pipeline
+import MlVerif.Lemmas.PipelineReach
 
 namespace MlVerif.C16
 open MlVerif.Gen.C16 MlVerif.Pipeline
@@ -280,16 +281,12 @@ theorem dot_endpoints_declared (p : Pipe) (schema : List String) (g : Dot) (hn :
     · intro c hc
       exact Or.inr ⟨s, hs, rfl, toDotAux_outs_lt schema.length infos 1 (initCols schema) s hs c hc⟩
 
-/- FULL STATEMENT (not proved): for every pipeline and schema, every port of the record of the last drawn step
-is reachable from the ports of `sch0`.
-What is proved (`dot_outputs_reachable_partial`): for every pipeline and schema, if the drawn graph is `wellFed`
-(a decidable condition evaluated on the graph itself: every step that has inputs has one that is a declared port
-of `sch0` or of a step that itself has inputs, and the port labels of each record are distinct), then EVERY step
-that has inputs is reachable from `sch0` together with every port of its record; in particular the final outputs
-when the last step has an input.  Missing: deriving `wellFed` from the pipeline.  It is evaluated by the driver on
-every generated case (histogram `dot:wellFed`); it tolerates the input-less `Identity` that a ColumnTransformer
-draws for an EMPTY passthrough remainder (merged by the following `union`), and it would fail only for a
-ColumnTransformer without any transformer or an empty schema. -/
+/-- A weaker, graph-level form kept from an earlier stage (it does not look at the pipeline): if the drawn graph
+is `wellFed` (a decidable condition evaluated on the graph itself: every step that has inputs has one that is a
+declared port of `sch0` or of a step that itself has inputs, and the port labels of each record are distinct), then
+every step that has inputs is reachable from `sch0` together with every port of its record.  The driver evaluates
+`wellFed` on every generated case (histogram `dot:wellFed`).  `dot_outputs_reachable` below needs no such
+hypothesis. -/
 theorem dot_outputs_reachable_partial (p : Pipe) (schema : List String) (g : Dot)
     (h : pipeline2dot p schema = .ok g) (hw : g.wellFed = true) :
     (∀ s ∈ g.steps, s.ins ≠ [] → Reach g (.box s.idx) ∧ ∀ c, c < s.ports.length → Reach g (.port s.idx c)) ∧
@@ -306,6 +303,41 @@ theorem dot_outputs_reachable_partial (p : Pipe) (schema : List String) (g : Dot
   refine ⟨fun s hs hne => main s.idx s hs rfl hne, ?_⟩
   intro last hl hne c hc
   exact (main last.idx last (List.mem_of_getLast? hl) rfl hne).2 c hc
+
+/-- FULL STATEMENT: for every pipeline `p` and every NON-EMPTY schema whose columns include the named columns used
+by the ColumnTransformers of `p` (what scikit-learn itself requires; the hypothesis of `dot_endpoints_declared`),
+if `pipeline2dot` draws a graph `g` then
+(1) every drawn step that has at least one input is reachable from the ports of the input record `sch0`, together
+    with EVERY port of its own record;
+(2) the last drawn step has an input and a non-empty record, so the final outputs (all the ports of the record of
+    the last step) are reachable from the inputs.
+No condition on the drawn graph is assumed: the invariant (`FedInv`, by mutual structural induction over `Pipe`
+in `Lemmas/PipelineReach.lean`) follows the names through the name -> port table of `pipeline2dot` and shows that
+every name handed to a later step resolves to a reachable port.  The only drawn step without input is the `Identity`
+of an EMPTY passthrough remainder; its single output is a fresh `-v-<n>` name which shadows no earlier name, and
+the `union` that follows it is fed by the outputs of the transformers.
+Excluded, by explicit decidable hypotheses: the empty schema (`schema ≠ []`: with no input column nothing is
+reachable, see the example below) and named columns that are not columns of the schema (`namedIn`).  A
+ColumnTransformer entry that selects zero columns needs NO exclusion: on a dict `_pipeline_info` hands such an entry
+all the columns (`all(isinstance(o, int) for o in [])` is true), on a list of names it raises (`max([])`), and a
+pipeline on which `pipeline2dot` raises draws no graph. -/
+theorem dot_outputs_reachable (p : Pipe) (schema : List String) (g : Dot) (hs : schema ≠ [])
+    (hn : namedIn schema p = true) (h : pipeline2dot p schema = .ok g) :
+    (∀ s ∈ g.steps, s.ins ≠ [] → Reach g (.box s.idx) ∧ ∀ c, c < s.ports.length → Reach g (.port s.idx c)) ∧
+    (∀ last, g.steps.getLast? = some last →
+      last.ins ≠ [] ∧ last.ports ≠ [] ∧ Reach g (.box last.idx) ∧
+        ∀ c, c < last.ports.length → Reach g (.port last.idx c)) := by
+  unfold pipeline2dot at h
+  split at h
+  · cases h
+  · cases h
+    rename_i infos c' heq
+    have hr := toDot_reach schema infos c'.names (info_fed p schema infos c' hs hn heq)
+    refine ⟨hr.1, ?_⟩
+    intro last hl
+    obtain ⟨h1, h2⟩ := hr.2 last hl
+    obtain ⟨h3, h4⟩ := hr.1 last (List.mem_of_getLast? hl) h1
+    exact ⟨h1, h2, h3, h4⟩
 
 /-! ## non-vacuity: a concrete nested pipeline -/
 
@@ -340,5 +372,61 @@ example : ((pipeline2dot ex1 ["a", "b", "c"]).toOption.map
 example : ((pipeline2dot (.columns [(.est .transformer "A", .names ["a", "b"])] .passthrough) ["a", "b"]).toOption.map
     (fun g => (g.wellFed, g.steps.map (fun s => (s.label, s.ins.length))))) =
     some (true, [("union", 2), ("A", 1), ("Identity", 0), ("union", 2)]) := by decide +kernel
+
+/-- `dot_outputs_reachable` applies to `ex1` on the schema a, b, c: the hypotheses hold, a graph is drawn, its last
+step is the classifier `C` with the record PredictedLabel | Probabilities, and both ports are reachable -/
+example : (["a", "b", "c"] : List String) ≠ [] ∧ namedIn ["a", "b", "c"] ex1 = true ∧
+    ((pipeline2dot ex1 ["a", "b", "c"]).toOption.bind
+      (fun g => g.steps.getLast?.map (fun s => (s.label, s.ports, s.ins.length)))) =
+      some ("C", ["PredictedLabel", "Probabilities"], 1) := by decide +kernel
+
+example (g : Dot) (h : pipeline2dot ex1 ["a", "b", "c"] = .ok g) :
+    ∀ last, g.steps.getLast? = some last → ∀ c, c < last.ports.length → Reach g (.port last.idx c) :=
+  fun last hl => ((dot_outputs_reachable ex1 _ g (by decide) (by decide) h).2 last hl).2.2.2
+
+/-- the EMPTY passthrough remainder: the input-less `Identity` is drawn, and the final `union` is still reachable
+(no hypothesis on the drawn graph) -/
+example (g : Dot)
+    (h : pipeline2dot (.columns [(.est .transformer "A", .names ["a", "b"])] .passthrough) ["a", "b"] = .ok g) :
+    ∀ last, g.steps.getLast? = some last → last.ports ≠ [] ∧ ∀ c, c < last.ports.length → Reach g (.port last.idx c) :=
+  fun last hl =>
+    have := (dot_outputs_reachable _ _ g (by decide) (by decide) h).2 last hl
+    ⟨this.2.1, this.2.2.2⟩
+
+/-- the hypothesis `schema ≠ []` cannot be dropped: on an empty schema a graph is drawn (a `union` without input
+feeding `A`), and nothing at all is reachable from the (absent) inputs -/
+example : ((pipeline2dot (.est .transformer "A") []).toOption.map
+    (fun g => g.steps.map (fun s => (s.label, s.ins.length, s.ports.length)))) =
+    some [("union", 0, 1), ("A", 1, 1)] := by decide +kernel
+
+example (g : Dot) (h : pipeline2dot (.est .transformer "A") [] = .ok g) : ∀ v, ¬ Reach g v := by
+  intro v hr
+  have hin : g.inputs = [] := (dot_every_step_and_column_appears _ _ g h).1
+  induction hr with
+  | input hc => rw [hin] at hc; simp at hc
+  | edge _ _ ih => exact ih
+
+/-- the hypothesis `namedIn` cannot be dropped either: ColumnTransformer([(A, ['zz'])]) on the schema a draws `A` fed
+by the undeclared raw name `zz`; the only port-level edge is `node1 -> sch1:f0` and the final output is unreachable -/
+def exUnnamed : Pipe := .columns [(.est .transformer "A", .names ["zz"])] .drop
+
+example : namedIn ["a"] exUnnamed = false := by decide
+
+example (g : Dot) (h : pipeline2dot exUnnamed ["a"] = .ok g) :
+    g.steps.map (fun s => (s.idx, s.ports)) = [(1, ["zz"])] ∧ ¬ Reach g (.port 1 0) := by
+  have hp : (pipeline2dot exUnnamed ["a"]).toOption.map
+      (fun g => (g.inputs.length, g.pedges, g.steps.map (fun s => (s.idx, s.ports)))) =
+      some (1, [(.box 1, .port 1 0)], [(1, ["zz"])]) := by decide +kernel
+  rw [h] at hp
+  simp only [Except.toOption, Option.map_some, Option.some.injEq, Prod.mk.injEq] at hp
+  have key : ∀ v, Reach g v → v = .port 0 0 := by
+    intro v hr
+    induction hr with
+    | input hc => rw [hp.1] at hc; congr; omega
+    | edge he _ ih =>
+      rw [hp.2.1] at he
+      simp only [List.mem_singleton, Prod.mk.injEq] at he
+      rw [he.1] at ih; cases ih
+  exact ⟨hp.2.2, fun hr => by cases key _ hr⟩
 
 end MlVerif.C16
